@@ -459,3 +459,28 @@ func (x *Info) ChainOK(id int, delivered map[int]bool) bool {
 	}
 	return true
 }
+
+// SecondGenesis delivers, to a chain of two blocks, a solved block whose
+// previous hash is empty and whose height is 0.  It reports whether
+// ProcessBlock panicked, its error and whether the active chain changed.
+func SecondGenesis() (panicked bool, errText string, changed bool, err error) {
+	f, err := fixture.New(fixture.Options{})
+	if err != nil {
+		return false, "", false, err
+	}
+	defer f.Close()
+	b1, _ := f.BuildBlock(f.Genesis, nil, fixture.BlockOpt{Miner: 1})
+	f.ProcessBlock(b1)
+	before, _ := f.Tip()
+	b, _ := f.BuildBlock(f.Genesis, nil, fixture.BlockOpt{Miner: 2, Salt: 9})
+	b.Header.Previous = common.EmptyHash
+	b.Header.Height = 0
+	f.Resolve(b)
+	var perr error
+	panicked, _ = lib.Recover(func() { _, _, perr = f.ProcessBlock(b) })
+	if perr != nil {
+		errText = perr.Error()
+	}
+	after, _ := f.Tip()
+	return panicked, errText, before != after, nil
+}
